@@ -275,12 +275,12 @@ func init() {
 				v := m.listPop(s, k, o, left)
 				return eBulkArr([]string{k, v})
 			}
-			return eBlock()
+			return eBlockOrUnblocked(inExec)
 		}
 	}
 	reg("blpop", -3, true, bpop(true))
 	reg("brpop", -3, true, bpop(false))
-	reg("blmove", 6, true, func(m *Model, s *Sess, a []string, _ bool) Expect {
+	reg("blmove", 6, true, func(m *Model, s *Sess, a []string, inExec bool) Expect {
 		sl, ok1 := side(a[3])
 		dl, ok2 := side(a[4])
 		if !ok1 || !ok2 {
@@ -291,27 +291,27 @@ func init() {
 		}
 		r := m.lmove(s, a[1], a[2], sl, dl)
 		if r.Mode == exExact && r.V.K == KNil {
-			return eBlock()
+			return eBlockOrUnblocked(inExec)
 		}
 		return r
 	})
-	reg("brpoplpush", 4, true, func(m *Model, s *Sess, a []string, _ bool) Expect {
+	reg("brpoplpush", 4, true, func(m *Model, s *Sess, a []string, inExec bool) Expect {
 		if _, bad := parseTimeout(a[3]); bad {
 			return eArgErr()
 		}
 		r := m.lmove(s, a[1], a[2], false, true)
 		if r.Mode == exExact && r.V.K == KNil {
-			return eBlock()
+			return eBlockOrUnblocked(inExec)
 		}
 		return r
 	})
-	reg("blmpop", -5, true, func(m *Model, s *Sess, a []string, _ bool) Expect {
+	reg("blmpop", -5, true, func(m *Model, s *Sess, a []string, inExec bool) Expect {
 		if _, bad := parseTimeout(a[1]); bad {
 			return eArgErr()
 		}
 		r := m.lmpop(s, a[2:])
 		if r.Mode == exExact && r.V.K == KNil {
-			return eBlock()
+			return eBlockOrUnblocked(inExec)
 		}
 		return r
 	})
@@ -319,6 +319,18 @@ func init() {
 
 // eBlock marks "the command would block now" (nil reply when inside EXEC).
 func eBlock() Expect { return Expect{V: Value{K: KNil}, Note: "would-block"} }
+
+// eBlockOrUnblocked: outside EXEC a block may also be ended by CLIENT UNBLOCK
+// ... ERROR; whether such a command was issued is C12's concern, for the
+// sequential model the command simply did not find an element.
+func eBlockOrUnblocked(inExec bool) Expect {
+	if inExec {
+		return eBlock()
+	}
+	e := eAlt(eBlock(), eErr("UNBLOCKED"))
+	e.Note = "would-block"
+	return e
+}
 
 func (e Expect) WouldBlock() bool { return e.Note == "would-block" }
 
